@@ -234,9 +234,11 @@ func sigHistories(realKey *rsa.PublicKey, objLen, callLen int) int64 {
 	old := user.VerifSetMojangKey(&fam.other.PublicKey)
 	defer user.VerifSetMojangKey(old)
 	// neighbour forgeries need only the trusted-key seam, not the two genuine pairs of the history menus
-	nb := 320
+	// 1700 covers the first two windows in which the 76-column line splitter meets a base64 flush shorter than a line
+	// (the encoder flushes every 768 input bytes): 799..824 and 1540..1592
+	nb := 1700
 	if rep.Thorough() {
-		nb = 1100
+		nb = 4200
 	}
 	nNb := neighbourFamily(nb)
 	if !initHist(realKey) {
